@@ -28,7 +28,7 @@ fn run_child(dir: &Path, seed: u64, rot: bool, env: &[(&str, String)]) -> ChildR
     let exe = std::env::current_exe().unwrap().parent().unwrap().join("crash_child");
     let mut c = Command::new(exe);
     c.arg(dir).arg(seed.to_string()).arg(if rot { "rot" } else { "norot" })
-        .env("LD_PRELOAD", "/verif/shim/crashshim.so")
+        .env("LD_PRELOAD", std::env::var("VERIF_SHIM").unwrap_or_else(|_| "/verif/shim/crashshim.so".to_string()))
         .env("VERIF_SHIM_LOG", &log)
         .env("VERIF_SHIM_ARM_FILE", &arm);
     for (k, v) in env { c.env(k, v); }
